@@ -488,6 +488,43 @@ pub async fn convergence_scenario(seed: u64, scen: u64, cfg: &ScenarioCfg, tag: 
     chaos.lock().enabled = false;
     tokio::time::sleep(Duration::from_millis(cfg.max_hold_ms + 3_000)).await;
 
+    // ---- where the real poller runs and nothing disturbed it (no node stopped or joined late,
+    // replication traffic never faulted) its own cycles are the anti-entropy exchanges: after three
+    // repair intervals every node has polled every peer at least twice since the last operation
+    // and the cluster must have converged WITHOUT the explicit round below. This is what exercises
+    // the poller's change tracking (keyspace timestamps, last_updated) which repair_from bypasses.
+    let ksn_bg: Vec<&str> = KEYSPACES.iter().take(cfg.n_keyspaces).copied().collect();
+    if cfg.background_repair && !cfg.restart && !cfg.late_join && tag == 1 {
+        tokio::time::sleep(cfg.repair_interval * 3 + Duration::from_secs(2)).await;
+        let writes = cluster.all_writes();
+        let mut model: BTreeMap<(String, Key), (HLCTimestamp, bool)> = BTreeMap::new();
+        for w in &writes {
+            let e = model.entry((w.keyspace.clone(), w.id)).or_insert((w.ts, w.data.is_none()));
+            if w.ts > e.0 {
+                *e = (w.ts, w.data.is_none());
+            }
+        }
+        let expect: BTreeSet<(String, Key, HLCTimestamp)> = model.iter().filter(|(_, v)| !v.1).map(|(k, v)| (k.0.clone(), k.1, v.0)).collect();
+        for nd in cluster.nodes.iter().filter(|n| n.up) {
+            let mut got = BTreeSet::new();
+            for ks in &ksn_bg {
+                if let Ok((live, _)) = store_listing(nd.inner.as_ref(), ks).await {
+                    for (id, t) in live {
+                        got.insert((ks.to_string(), id, t));
+                    }
+                }
+            }
+            if got != expect && res.read_divergence.is_none() {
+                let show = |m: &BTreeSet<(String, Key, HLCTimestamp)>| json!(m.iter().map(|e| json!([e.0, e.1, ts_json(e.2)])).collect::<Vec<_>>());
+                res.read_divergence = Some((
+                    "background-repair-cycles-did-not-converge".into(),
+                    json!({"node": nd.id, "live_documents": show(&got), "last_writer_wins": show(&expect), "waited": "3 repair intervals + 2 s after faults stopped"}),
+                ));
+            }
+        }
+        res.exchanges += 1; // counted as evidence that the background phase ran
+    }
+
     // ---- final round (premise of the statement), established from repair_from's outcome
     let ksn: Vec<&str> = KEYSPACES.iter().take(cfg.n_keyspaces).copied().collect();
     match cluster.final_round(&mut rng, &ksn, 3).await {
@@ -722,7 +759,7 @@ pub fn c01(args: &Args) {
         return;
     }
     let seed = args.seed;
-    let n = args.pick(60_000, 3_000_000);
+    let n = args.pick(40_000, 3_000_000);
     run_cases(&mut report, n, args.threads, Duration::from_secs(args.pick(150, 3000)), |i| c01_case(seed, i, thorough, "C01", true, false));
     report.floor("scenarios", 1_000);
     report.floor("repair_exchanges_completed", 5_000);
